@@ -72,7 +72,7 @@ func (muxer *Muxer) Close() error {
 
 	muxer.closed = true
 	verifhook.Point("tsmuxer.close.flagged", muxer)
-	muxer.recvQueue.Signal()
+	muxer.recvQueue.Push(nil) // 加锁入列 nil 唤醒处理 routine，避免信号丢失
 	return nil
 }
 
